@@ -23,6 +23,8 @@ Record pad := mkPad { p_req : bool; p_min : option Z }.
 
 Inductive op :=
 | TIn (v : Z)                     (* add_transparent_p2pkh_input, coin value v *)
+| TInSh (v m n : Z)               (* add_transparent_p2sh_input: m-of-n multisig coin whose redeem
+                                     script lists the multisig keys 4 .. 4+n-1 in that order *)
 | TOut (v : Z) (p2sh : bool)      (* add_transparent_output *)
 | TNull (len : Z)                 (* add_transparent_null_data_output, len bytes *)
 | SSpend (v : Z) | SOut (v : Z)   (* add_sapling_spend / add_sapling_output *)
@@ -32,12 +34,13 @@ Inductive op :=
 | Expiry (h : Z).                 (* with_expiry_height *)
 
 Inductive rule := RZip317 | RLin (c : list Z).
-Inductive route := Mock | Build | Pczt.
+Inductive route := Mock | Build | Pczt | Deferred.   (* Deferred: DeferredPcztBuilder *)
 
 Record req := mkReq {
   r_net : net; r_height : Z;
   r_sap : bool; r_orc : bool; r_iw : bool;      (* anchors supplied in BuildConfig::Standard *)
   r_opad : pad; r_ipad : pad;
+  r_keys : list Z;                (* multisig keys present in the TransparentSigningSet *)
   r_ops : list op; r_rule : rule; r_route : route }.
 
 (** What a fee rule is asked about. *)
@@ -55,6 +58,7 @@ Inductive berr :=
 | EIronwoodSpend | EIronwoodNoteVersion | EIronwoodRecipient
 | ESaplingNA | EOrchardNA | EIronwoodNA
 | EOther
+| EDeferral                       (* AnchorDeferralUnsupported *)
 | EAdd (i : Z) (e : berr).        (* the i-th call on the builder failed with e *)
 
 (** One shielded bundle as observed: counts, value balance and — where the route exposes note
@@ -64,7 +68,7 @@ Record shb := mkShb {
 
 Record built := mkBuilt {
   b_ver : ver; b_branch : Z; b_expiry : Z; b_lock : Z;
-  b_tin : list Z;                 (* value of the coin each input spends, in input order *)
+  b_tin : list (Z * Z);           (* (value of the spent coin, size the input is charged for) *)
   b_tout : list (Z * Z);          (* (value, serialized size) of each output, in order *)
   b_sap : option shb; b_orc : option shb; b_iw : option shb;
   b_fee_paid : option Z;          (* TransactionData::fee_paid (transaction routes only) *)
@@ -127,7 +131,22 @@ Definition zip212_on (n : net) (h : Z) : bool := activation n BCanopy + ZIP212_G
 Definition nulldata_size (len : Z) : Z :=
   8 + 1 + 1 + (if len =? 0 then 1 else if len <=? 75 then 1 + len else 2 + len).
 
-Definition tin_of (o : op) : list Z := match o with TIn v => [v] | _ => [] end.
+(** TransparentInputInfo::serialized_len of an m-of-n multisig P2SH input: prevout, CompactSize,
+    OP_0, m maximal signatures, the pushed redeem script (OP_m, n 33-byte keys, OP_n,
+    OP_CHECKMULTISIG), sequence. *)
+Definition p2sh_input_size (m n : Z) : Z :=
+  let rs := 3 + 34 * n in
+  let push := if rs <=? 75 then 1 + rs else if rs <=? 255 then 2 + rs else 3 + rs in
+  let sl := 1 + 74 * m + push in
+  36 + (if sl <? 253 then 1 else 3) + sl + 4.
+
+Definition tin_of (o : op) : list (Z * Z) :=
+  match o with
+  | TIn v => [(v, P2PKH_STANDARD_INPUT_SIZE)]
+  | TInSh v m n => [(v, p2sh_input_size m n)]
+  | _ => []
+  end.
+Definition tsh_of (o : op) : list (Z * Z) := match o with TInSh _ m n => [(m, n)] | _ => [] end.
 Definition tout_of (o : op) : list (Z * Z) :=
   match o with
   | TOut v p2sh => [(v, if p2sh then 32 else 34)]
@@ -142,7 +161,9 @@ Definition oc_of (o : op) : list Z := match o with OChange v => [v] | _ => [] en
 Definition is_of (o : op) : list Z := match o with ISpend v _ => [v] | _ => [] end.
 Definition io_of (o : op) : list Z := match o with IOut v => [v] | _ => [] end.
 
-Definition tin_vals := flat_map tin_of.
+Definition tin_vs := flat_map tin_of.
+Definition tin_vals (ops : list op) : list Z := map fst (tin_vs ops).
+Definition tsh_mn := flat_map tsh_of.
 Definition tout_vs := flat_map tout_of.
 Definition ss_vals := flat_map ss_of.
 Definition so_vals := flat_map so_of.
@@ -159,12 +180,14 @@ Definition nonempty {A} (l : list A) : bool := match l with [] => false | _ => t
 (* ---------------------------------------------------------------- builder environment *)
 (** Which bundle builders Builder::new creates. *)
 Record env := mkEnv { e_branch : branch; e_sap : bool; e_orc : bool; e_iw : bool; e_cross : bool }.
+Definition is_deferred (r : req) : bool := match r_route r with Deferred => true | _ => false end.
 Definition env_of (r : req) : env :=
   let br := branch_at (r_net r) (r_height r) in
   {| e_branch := br;
-     e_sap := r_sap r;
-     e_orc := r_orc r && branch_has_orchard br;
-     e_iw := r_iw r && has_ironwood (suggested_for_branch br);
+     (* DeferredPcztBuilder: no Sapling, both Orchard-family builders always exist *)
+     e_sap := negb (is_deferred r) && r_sap r;
+     e_orc := is_deferred r || (r_orc r && branch_has_orchard br);
+     e_iw := is_deferred r || (r_iw r && has_ironwood (suggested_for_branch br));
      (* orchard BundleVersion::default_flags: cross-address transfers are disabled for the
         Orchard pool under protocol revision V3 (NU6.3) *)
      e_cross := negb (branch_has_ironwood br) |}.
@@ -186,7 +209,7 @@ Definition orchard_num_actions (p : pad) (cross : bool) (spends outs : Z) : Z :=
 Definition shape_of (r : req) (ops : list op) : shape :=
   let e := env_of r in
   let sin := len (ss_vals ops) in
-  {| sh_tin := map (fun _ => P2PKH_STANDARD_INPUT_SIZE) (tin_vals ops);
+  {| sh_tin := map snd (tin_vs ops);
      sh_tout := map snd (tout_vs ops);
      sh_sin := sin;
      sh_sout := if e_sap e then sapling_num_outputs sin (len (so_vals ops)) else 0;
@@ -243,10 +266,14 @@ Definition check_version (r : req) (ops : list op) (v : ver) : option berr :=
 Definition sapling_balance (ops : list op) : Z := zsum (ss_vals ops) - zsum (so_vals ops).
 
 (** One call on a builder that already accepted [done]. Returns the error of the call, if any. *)
+Definition deferred_op (o : op) : bool :=
+  match o with OSpend _ | OOut _ | OChange _ | ISpend _ _ | IOut _ | Expiry _ => true | _ => false end.
+
 Definition step_err (r : req) (done : list op) (o : op) : option berr :=
   let e := env_of r in
-  match o with
-  | TIn _ | TOut _ _ | Expiry _ => None
+  if is_deferred r && negb (deferred_op o) then Some EOther   (* not in that builder's interface *)
+  else match o with
+  | TIn _ | TInSh _ _ _ | TOut _ _ | Expiry _ => None
   | TNull n => if 80 <? n then Some ETransparentBuild else None
   | SSpend _ | SOut _ =>
       if negb (e_sap e) then Some ESaplingNA
@@ -345,31 +372,52 @@ Definition mk_bundle (known : bool) (nsp nout vb : Z) (sp outs : list Z) : shb :
      sb_spv := if known then Some (zsort (padded sp nsp)) else None;
      sb_outv := if known then Some (zsort (padded outs nout)) else None |}.
 
+(** routes whose result is a PCZT (note values visible, no signatures yet) *)
+Definition is_pczt (r : req) : bool := match r_route r with Pczt | Deferred => true | _ => false end.
+
 Definition assemble (r : req) (hd : ver * Z) (fee : Z) : built :=
   let e := env_of r in
   let ops := r_ops r in
   let s := req_shape r in
-  let pczt := match r_route r with Pczt => true | _ => false end in
+  let pczt := is_pczt r in
+  let dfr := is_deferred r in
   let nsp := sapling_num_spends (sh_sin s) in
   let sap := if e_sap e && (pczt || (0 <? nsp + sh_sout s))
              then Some (mk_bundle pczt nsp (sh_sout s) (sapling_balance ops) (ss_vals ops) (so_vals ops))
              else None in
-  let orc := if e_orc e && (pczt || (0 <? sh_orc s))
+  (* Builder: a PCZT bundle for every builder that exists, a transaction bundle when it has
+     actions. DeferredPcztBuilder: a bundle exactly when one is expected (something was added or
+     the padding requires it). *)
+  let orc := if (if dfr then orchard_in_use r ops else e_orc e && (pczt || (0 <? sh_orc s)))
              then Some (mk_bundle pczt (sh_orc s) (sh_orc s)
                           (zsum (os_vals ops) - zsum (oo_vals ops) - zsum (oc_vals ops))
                           (os_vals ops) (oo_vals ops ++ oc_vals ops))
              else None in
-  let iw := if e_iw e && (if pczt then has_ironwood (fst hd) else 0 <? sh_iw s)
+  let iw := if (if dfr then ironwood_in_use r ops
+                else e_iw e && (if pczt then has_ironwood (fst hd) else 0 <? sh_iw s))
             then Some (mk_bundle pczt (sh_iw s) (sh_iw s)
                          (zsum (is_vals ops) - zsum (io_vals ops)) (is_vals ops) (io_vals ops))
             else None in
   {| b_ver := fst hd; b_branch := branch_id (e_branch e); b_expiry := snd hd; b_lock := 0;
-     b_tin := tin_vals ops; b_tout := tout_vs ops;
+     b_tin := tin_vs ops; b_tout := tout_vs ops;
      b_sap := sap; b_orc := orc; b_iw := iw;
      b_fee_paid := if pczt then None else Some fee;
      b_dec := true; b_sig := true |}.
 
-(** Builder::build (Standard) / mock_build / build_for_pczt after the calls. *)
+(** Bundle::<Unauthorized>::apply_signatures, multisig arm: walking the redeem script's public
+    keys (4 .. 4+n-1) in order, one signature per key found in the signing set until m are
+    collected; MissingSigningKey when fewer than m are found. *)
+Definition script_keys (n : Z) : list Z := map (fun j => 4 + Z.of_nat j) (seq 0 (Z.to_nat n)).
+Definition registered (keys : list Z) (k : Z) : bool := existsb (Z.eqb k) keys.
+Definition signing_keys (keys : list Z) (m n : Z) : list Z :=
+  firstn (Z.to_nat m) (filter (registered keys) (script_keys n)).
+Definition p2sh_signable (keys : list Z) (mn : Z * Z) : bool :=
+  len (signing_keys keys (fst mn) (snd mn)) =? fst mn.
+
+(** Builder::build (Standard) / mock_build / build_for_pczt, and
+    DeferredPcztBuilder::build_for_pczt, after the calls. (The deferred builder does not call
+    check_version_compatibility; on the V6 / NU6.3 branch it can be constructed for, that check
+    accepts everything the builder can hold, so the model keeps one code path.) *)
 Definition finish (r : req) (hd : ver * Z) : outcome built berr :=
   match fee_required (r_rule r) (req_shape r) with
   | None => Err EFeeRule
@@ -385,18 +433,26 @@ Definition finish (r : req) (hd : ver * Z) : outcome built berr :=
           else if bal - fee <? 0 then Err (EInsufficient (fee - bal))
           else if 0 <? bal - fee then Err (EChange (bal - fee))
           else match r_route r with
-               | Pczt =>
+               | Pczt | Deferred =>
                    if e_sap (env_of r) && negb (zip212_on (r_net r) (r_height r))
                    then Err ESaplingZip212 else Ok (assemble r hd fee)
                | _ =>
                    (* sighash_v4: "Signature hashing for pre-overwinter transactions is not supported" *)
-                   if has_overwinter (fst hd) then Ok (assemble r hd fee) else Panic
+                   if negb (has_overwinter (fst hd)) then Panic
+                   (* a multisig input for which fewer than m keys are registered *)
+                   else if forallb (p2sh_signable (r_keys r)) (tsh_mn (r_ops r)) then Ok (assemble r hd fee)
+                   else Err ETransparentBuild
                end
       end
     end
   end.
 
+(** DeferredPcztBuilder::new refuses a branch whose suggested version is not V6. *)
+Definition deferral_refused (r : req) : bool :=
+  is_deferred r && negb (has_ironwood (suggested_for_branch (branch_at (r_net r) (r_height r)))).
+
 Definition build (r : req) : outcome built berr :=
+  if deferral_refused r then Err EDeferral else
   match run_ops r [] (r_ops r) (init_hdr r) 0 with
   | Err e => Err e
   | Panic => Panic
@@ -405,6 +461,7 @@ Definition build (r : req) : outcome built berr :=
 
 (** What the recording fee rule sees: only a linear rule records, and only when get_fee is reached. *)
 Definition model_seen (r : req) : option shape :=
+  if deferral_refused r then None else
   match r_rule r, run_ops r [] (r_ops r) (init_hdr r) 0 with
   | RLin _, Ok _ => Some (req_shape r)
   | _, _ => None
@@ -412,6 +469,6 @@ Definition model_seen (r : req) : option shape :=
 
 (** TransactionData::fee_paid on an observed transaction: the sum of all pool balances. *)
 Definition bundle_vb (o : option shb) : Z := match o with Some x => sb_vb x | None => 0 end.
-Definition transparent_vb (b : built) : Z := zsum (b_tin b) - zsum (map fst (b_tout b)).
+Definition transparent_vb (b : built) : Z := zsum (map fst (b_tin b)) - zsum (map fst (b_tout b)).
 Definition fee_paid (b : built) : Z :=
   transparent_vb b + bundle_vb (b_sap b) + bundle_vb (b_orc b) + bundle_vb (b_iw b).
